@@ -309,6 +309,7 @@ func runOnce(run int, c cfg, found func(sig, detail string)) []Event {
 		// an outage with a call in it: the server goes away, the connections the client still holds are dropped, a call
 		// is made (it fails, or is served by a connection that survived) and then the server comes back
 		stopServer()
+		px.pause() // dials are refused from here on
 		for k := 0; k < 4; k++ {
 			ctx := async.TimeoutContext(100 * time.Millisecond)
 			conn, st := cl.Conn(ctx)
@@ -322,6 +323,9 @@ func runOnce(run int, c cfg, found func(sig, detail string)) []Event {
 		// recovery: once the server is reachable an on-demand client succeeds on its next calls,
 		// an auto-connect client reconnects by itself
 		startServer()
+		if err := px.resume(); err != nil {
+			found("harness", "proxy: "+err.Error())
+		}
 		if c.Auto {
 			select {
 			case <-cl.Connected().Wait():
